@@ -3,6 +3,7 @@
 package c12
 
 import (
+	"math/rand"
 	"context"
 	"fmt"
 	"io"
@@ -257,6 +258,40 @@ func classes() []class {
 				e.data.Update(c, &pb.UpdateRequest{DatasetId: e.dsId, Id: hx.Id(701).Bytes(), Value: v})
 			})
 		}
+	}
+	// ---- ordinary numbers at the edge of the metric's range: queries and values parallel, nearly parallel,
+	// opposite and identical to stored vectors (distances of exactly zero, or within rounding of it on either side)
+	for _, sp := range []pb.Space{pb.Space_Euclidean, pb.Space_Manhattan, pb.Space_Cosine} {
+		sp := sp
+		addSp(fmt.Sprintf("DataManager.Insert+Search:parallel-and-coincident-vectors:%s", sp), sp, func(e *env) {
+			c, f := e.ctx()
+			defer f()
+			rng := rand.New(rand.NewSource(12))
+			var stored [][]float32
+			for i := 0; i < 40; i++ {
+				v := vec(rng.Float32()*2-1, rng.Float32()*2-1, rng.Float32()*2-1, rng.Float32()*2-1)
+				stored = append(stored, v)
+				e.data.Insert(c, &pb.InsertRequest{DatasetId: e.dsId, Id: hx.Id(800 + i).Bytes(), Value: v})
+			}
+			scale := func(v []float32, f float32) []float32 {
+				o := make([]float32, len(v))
+				for i := range v {
+					o[i] = v[i] * f
+				}
+				return o
+			}
+			for i, v := range stored {
+				for j, f := range []float32{3, 1.00001, 1, -1, 0.3333333} {
+					drain(e.srch.Search(c, &pb.SearchRequest{DatasetId: e.dsId, Query: scale(v, f), K: 5}))
+					if i < 12 {
+						e.data.Insert(c, &pb.InsertRequest{DatasetId: e.dsId, Id: hx.Id(900 + i*8 + j).Bytes(), Value: scale(v, f)})
+					}
+				}
+			}
+			e.data.Update(c, &pb.UpdateRequest{DatasetId: e.dsId, Id: hx.Id(801).Bytes(), Value: scale(stored[0], 7)})
+			e.data.BatchInsert(c, &pb.BatchRequest{DatasetId: e.dsId, Items: []*pb.BatchItem{
+				{Id: hx.Id(1100).Bytes(), Value: scale(stored[2], 2)}, {Id: hx.Id(1101).Bytes(), Value: scale(stored[2], 2)}, {Id: hx.Id(1102).Bytes(), Value: scale(stored[2], 5)}}})
+		})
 	}
 	// ---- k
 	add("Search.Search:k-0", func(e *env) { c, f := e.ctx(); defer f(); drain(e.srch.Search(c, &pb.SearchRequest{DatasetId: e.dsId, Query: vec(1, 2, 3, 4), K: 0})) })
